@@ -278,7 +278,9 @@ def run_simulator(param_input: Union[str, Dict], workload: Workload = None) -> S
     params = parse_args_with_defaults(params)
     
     # Validate constraints
-    assert (params["interactive_prob"] + params["query_prob"] + params["batch_prob"] == 1), \
+    # compare with a tolerance: decimal probabilities such as 0.2 + 0.7 + 0.1
+    # do not add up to exactly 1.0 in binary floating point
+    assert np.isclose(params["interactive_prob"] + params["query_prob"] + params["batch_prob"], 1), \
         "Probabilities must sum to 1"
     assert params["cpu_io_ratio"] <= 1 and params["cpu_io_ratio"] >= 0, \
         "CPU IO ratio must be between 0 and 1"
